@@ -52,7 +52,7 @@ func runSharded(name, tier string, n int) *CustomResult {
 		go func(i int) {
 			defer wg.Done()
 			cmd := exec.Command("/proc/self/exe", "shard", name, tier, fmt.Sprint(i), fmt.Sprint(n))
-			cmd.Env = append(os.Environ(), "GOMAXPROCS=2")
+			cmd.Env = append(os.Environ(), "GOMAXPROCS=2", "VERIF_MAPMODE=1")
 			var stdout, stderr bytes.Buffer
 			cmd.Stdout, cmd.Stderr = &stdout, &stderr
 			// a shard that does not finish is a harness error (never a silent hang of the check)
